@@ -227,7 +227,7 @@ func TestAccountSigBinding(t *testing.T) {
 		for n := range c.fields {
 			names = append(names, n)
 		}
-		ops := []string{"field", "field", "field", "multi-field", "r-zero", "s-zero", "r-ge-n", "s-ge-n", "high-s-twin", "flip-recid", "v-other-chain", "v-huge", "v-27-28-transplant",
+		ops := []string{"field", "field", "field", "multi-field", "r-zero", "s-zero", "r-ge-n", "s-ge-n", "high-s-twin", "flip-recid", "v-other-chain", "v-huge", "v-27-28-transplant", "v-arith", "v-arith",
 			"sender-other-chain-param", "unprotected-resign", "other-chain-resign"}
 		op := rapid.SampledFrom(ops).Draw(t, "op")
 		label := op
@@ -313,6 +313,41 @@ func TestAccountSigBinding(t *testing.T) {
 		case "v-huge":
 			at(root, c.sigPath(0)).str = bytes.Repeat([]byte{0xff}, rapid.IntRange(9, 33).Draw(t, "vlen"))
 			mustReject = true
+		case "v-arith":
+			// r and s stay; V is replaced by a value arithmetically related to the genuine one: every other V must stop the
+			// signature from being attributed to the key holder (a second accepted encoding is malleability; one that names
+			// another chain parameter breaks the chain binding)
+			p2 := new(big.Int).Mul(types.SignParam, big.NewInt(2))
+			recid := new(big.Int).Sub(V, new(big.Int).Add(p2, big.NewInt(35))) // V = 35 + 2p + recid
+			var v2 *big.Int
+			switch kind := rapid.SampledFrom([]string{"sweep", "sweep", "small", "reflect", "reflect", "pow2", "plain", "halfparam"}).Draw(t, "varith"); kind {
+			case "sweep":
+				d := rapid.IntRange(1, 300).Draw(t, "vd")
+				if rapid.Bool().Draw(t, "vminus") {
+					d = -d
+				}
+				v2 = new(big.Int).Add(V, big.NewInt(int64(d)))
+			case "small":
+				v2 = big.NewInt(int64(rapid.IntRange(0, 80).Draw(t, "vsmall")))
+			case "reflect":
+				// 2p + 8 - (27 + r): the "plain" V comes out as -(27 + r)
+				r := new(big.Int).Set(recid)
+				if rapid.Bool().Draw(t, "otherrecid") {
+					r.Sub(big.NewInt(1), r)
+				}
+				v2 = new(big.Int).Sub(new(big.Int).Add(p2, big.NewInt(8)), new(big.Int).Add(big.NewInt(27), r))
+			case "pow2":
+				k := rapid.SampledFrom([]uint{8, 16, 31, 32, 63, 64, 65, 128}).Draw(t, "vpow")
+				v2 = new(big.Int).Add(V, new(big.Int).Lsh(big.NewInt(1), k))
+			case "plain":
+				v2 = new(big.Int).Add(big.NewInt(27), recid)
+			default:
+				v2 = new(big.Int).Add(new(big.Int).Add(types.SignParam, big.NewInt(35)), recid) // p instead of 2p
+			}
+			if v2.Sign() < 0 || v2.Cmp(V) == 0 {
+				t.Skip("not a different non-negative V")
+			}
+			at(root, c.sigPath(0)).str = v2.Bytes()
 		case "v-27-28-transplant":
 			// keep r,s (made for this chain's hash), present them as an unprotected signature
 			at(root, c.sigPath(0)).str = []byte{byte(27 + rapid.IntRange(0, 1).Draw(t, "recid"))}
